@@ -547,6 +547,18 @@ func runWorkflowJob(job *Job, res *Result) {
 	default:
 		res.Error = "unknown mode " + job.Mode
 	}
+	if job.Mode == "dpor" && strings.Contains(res.Error, "unsupported: blocking select with a send case") {
+		// a construct the reduced explorer is not validated for: the unreduced enumeration decides,
+		// within a delay bound (reported as not closed)
+		res.Error = ""
+		res.Violations = nil
+		res.Outcomes = map[string]int{}
+		r.seenV = map[string]bool{}
+		nexec = 0
+		res.Extra["unreduced_fallback_delay_bound"] = 2
+		res.Stats = vs.ExploreNaive(r.setup, r.body, visit, false, 2, deadline)
+		res.Stats.Closed = false
+	}
 	res.NOutcomes = len(res.Outcomes)
 	res.PureBuf = vs.PureBuf
 	if job.OpFaultNth != 0 {
